@@ -30,6 +30,10 @@ func provablyNonNil(v ssa.Value, b *ssa.BasicBlock) bool {
 		return x.Value != nil
 	case *ssa.ChangeInterface:
 		return provablyNonNil(x.X, b)
+	case *ssa.UnOp:
+		if g, ok := x.X.(*ssa.Global); ok && x.Op == token.MUL && sentinelError(g) {
+			return true
+		}
 	case *ssa.Call:
 		// constructors known to return non-nil
 		if f := an.StaticCallee(x); f != nil {
@@ -351,4 +355,42 @@ func isStdCall(in ssa.Instruction, pkg, name string) bool {
 		return false
 	}
 	return an.StdCallee(ci, pkg, name)
+}
+
+var sentinelCache = map[*ssa.Global]bool{}
+
+// sentinelError: package-level error variable assigned exactly once, in the package initializer,
+// from errors.New / fmt.Errorf (e.g. ErrTimeBackwards): loads of it are non-nil.
+func sentinelError(g *ssa.Global) bool {
+	if r, ok := sentinelCache[g]; ok {
+		return r
+	}
+	res := false
+	if g.Pkg != nil {
+		stores, good := 0, 0
+		for _, m := range g.Pkg.Members {
+			fn, ok := m.(*ssa.Function)
+			if !ok {
+				continue
+			}
+			for _, f := range an.WithAnon(fn) {
+				an.Instrs(f, func(in ssa.Instruction) {
+					st, ok := in.(*ssa.Store)
+					if !ok || st.Addr != ssa.Value(g) {
+						return
+					}
+					stores++
+					if call, ok := st.Val.(*ssa.Call); ok && fn.Name() == "init" {
+						if an.StdCallee(call, "errors", "New") || an.StdCallee(call, "fmt", "Errorf") {
+							good++
+						}
+					}
+				})
+			}
+		}
+		// methods are not package members: scan them too for stray stores
+		res = stores == 1 && good == 1
+	}
+	sentinelCache[g] = res
+	return res
 }
